@@ -753,9 +753,18 @@ def rnd_default_case(rnd, fam, T, items):
     dflt = {"k": "dict", "d": d}
     chan = rnd.choice(["argv", "dcf", "dcf", "env", "string"])
 
+    def names_class(v):
+        """does the value designate a class at any depth (a reference, or a dict with class_path)?"""
+        if v["k"] in ("ref",):
+            return True
+        if v["k"] == "dict":
+            return "class_path" in v["d"] or any(names_class(x) for x in v["d"].values())
+        if v["k"] == "list":
+            return any(names_class(x) for x in v["l"])
+        return False
+
     def designates(it):
-        v = it["v"]
-        return it["k"] != "dot" and (v["k"] in ("ref", "str") or (v["k"] == "dict" and "class_path" in v["d"]))
+        return names_class(it["v"]) or (it["k"] != "dot" and it["v"]["k"] == "str")
 
     if chan == "argv":
         return dflt, chan, items
